@@ -93,6 +93,7 @@ let rec parse_schema (toks : Stdlib.String.t list) : schema * Stdlib.String.t li
   match toks with
   | "I" :: mn :: mx :: xmn :: xmx :: mu :: r -> (SInt { c_min = oz mn; c_max = oz mx; c_xmin = ex xmn; c_xmax = ex xmx; c_mult = oz mu }, r)
   | "N" :: r -> (SNum, r)
+  | "F" :: mn :: mx :: xmn :: xmx :: r -> (SNumC { c_min = oz mn; c_max = oz mx; c_xmin = ex xmn; c_xmax = ex xmx; c_mult = None }, r)
   | "S" :: lo :: hi :: r -> (SStr (on lo, on hi), r)
   | "B" :: r -> (SBool, r)
   | "Z" :: r -> (SNullT, r)
